@@ -5,6 +5,7 @@ import (
 	"sync"
 	"time"
 
+	"verifharness/internal/rng"
 	"verifharness/internal/rt"
 	"verifharness/internal/sup"
 )
@@ -150,6 +151,9 @@ func init() {
 		Assumptions: []string{"inherently wall-clock: decided on this VM's clock; 'a few seconds' is fixed at B = 3 s (a correctly armed timer fires within 1 s of T)", "every other deadline of the same bucket is absent or >= T+8 s, so a wrongly armed timer cannot be mistaken for lateness"},
 		Parts: append(append([]sup.Part{rtPart(20, 300),
 			{Name: "rewrite-during-sweep", Timeout: 120 * time.Second, Count: func(t string) int { return tierN(t, 5, 60) }, Run: sweepRaceBatch},
+			{Name: "forced-windows", Timeout: 60 * time.Second, Count: func(t string) int { return tierN(t, 2, 20) }, Run: func(c *sup.Ctx) {
+				windowScenario(c, rng.New(c.Seed, rng.HashString("C14win"), uint64(c.Local)), []string{"C02", "C03", "C18"})
+			}},
 			{Name: "deleted-with-an-expiry", Timeout: 120 * time.Second, Count: func(t string) int { return tierN(t, 2, 20) }, Run: tombstoneExpiryBatch},
 		}, c14SeqParts()...), crashPart("pending-expiry", 30, 300, pendingExpiryScenario)),
 		Floor: func(tier string, m *sup.Merged) string {
